@@ -464,6 +464,30 @@ def c11_battery(binary):
                                  "link_sets_script": st1[1][:3] if st1[1] != st2[1] else None, "link_sets_real": st2[1][:3] if st1[1] != st2[1] else None})
             finally:
                 shutil.rmtree(d, ignore_errors=True)
+    # many groups of different sizes: the summary of the dry run must not depend on the order in which the worker threads deliver
+    # the groups (repeated, the arrival order varies from run to run)
+    d = tempfile.mkdtemp(prefix="c11b.", dir="/var/tmp")
+    try:
+        env = mkenv(d)
+        os.makedirs(os.path.join(d, "tmp"))
+        t = os.path.join(d, "tree")
+        os.makedirs(t)
+        for i in range(1, 41):
+            for side in ("a", "b"):
+                open(os.path.join(t, "g%02d_%s" % (i, side)), "wb").write(bytes([64 + i]) * i)
+        g = subprocess.run([binary, "group", t], stdout=subprocess.PIPE, stderr=subprocess.PIPE, env=env, timeout=120)
+        seen = set()
+        for _ in range(20):
+            dr = subprocess.run([binary, "remove", "--dry-run"], input=g.stdout, stdout=subprocess.PIPE, stderr=subprocess.PIPE, env=env, timeout=120)
+            m1 = re.search(rb"Would process (\d+) files and reclaim (?:up to )?([^\n]*) space", dr.stderr)
+            seen.add((m1.group(1).decode(), m1.group(2).decode()) if m1 else None)
+        rr = subprocess.run([binary, "remove"], input=g.stdout, stdout=subprocess.PIPE, stderr=subprocess.PIPE, env=env, timeout=120)
+        m2 = re.search(rb"Processed (\d+) files and reclaimed (?:up to )?([^\n]*) space", rr.stderr)
+        real = (m2.group(1).decode(), m2.group(2).decode()) if m2 else None
+        if seen != {real}:
+            devs.append({"tree": "40 groups of 1..40 bytes", "cmd": "remove", "dry_run_summaries_of_20_runs": sorted(map(str, seen)), "real_run_summary": real})
+    finally:
+        shutil.rmtree(d, ignore_errors=True)
     _memo[("c11", binary)] = devs
     return devs
 
